@@ -40,6 +40,11 @@ CLAIMS = {
  "C08": ("Theorems: C08_guard_literal (for a literal key under $SYS an ordinary client passes the guard exactly for $SYS/clients/<own id>/{graveGoods,lastWill,clientName}[/..], else ReadOnlyKey), C08_refused_is_identity (a refused set/cset/delete/pdelete/spub-init changes nothing at all), "
          "refuted-witness theorems C08_pdelete_wildcard_refuted (F4) and C08_publish_refuted (F5). Correspondence: sentinels under $SYS + internal observer; every key/pattern shape reaching $SYS (first segment $SYS/?/#/user, depth 3-4) x 11 request kinds incl. grave goods and last wills at disconnect; oracle: protected keys unchanged and unobserved except server bookkeeping, F4/F5 as known findings.",
          CORE_NOTE, "Coq proof of the guard table + exhaustive extracted-model differential check + $SYS oracle"),
+ "C14": ("Layer 1 (message <-> JSON value), full proof for every variant: C14_roundtrip_client (23 variants), C14_roundtrip_server (8), C14_roundtrip_sync (LeaderSyncMessage/ClientWriteCommand/StateSync incl. the stored node tree) for all ids/versions in range, arbitrary keys and arbitrary nested values; C14_u64_text (decimal printer/reader round trip for every u64); "
+         "C14_sync_F8_refuted (known finding F8: plain null / plain {\"Cas\":[x,n]} inside a StateSync). Layer 2: C14_single_line (the compact writer never emits a line break, full proof). "
+         "NOT modelled (named): serde_json's tokenizer and float printing/parsing, UTF-8 validation -- exercised by the correspondence: every generated message goes through the real from_str -> to_string -> from_str and the text is compared byte for byte with the extracted model's print(enc(dec)); a quarter of the inputs are malformed and the model's decoder must accept/reject like serde's derive.",
+         "Trusted: Coq kernel (no axioms), extraction, OCaml JSON text parser (glue), the hand-written model Model/Codec.v of the derive(Serialize, Deserialize) semantics (tie = byte-exact correspondence on every run). Numbers above u64::MAX / floats are not generated as literals the model would have to re-print.",
+         "Coq round-trip proofs per message type + byte-exact differential check against serde"),
 }
 def chk(pid, text, note, technique):
     return {"property_id": pid, "quick_cmd": f"./wv check {pid} --tier quick", "thorough_cmd": f"./wv check {pid} --tier thorough",
